@@ -94,23 +94,16 @@ class Checkers(object):
 
     # ---------------------------------------------------------------- frame_buffer
     def chk_parse_size_index_guarded(self):
-        root = self.hir('<frame_buffer::AmqpFrameKind as frame_buffer::FrameKind>::parse_size')
-        idx = [(g, n) for g, n in self.if_guards(root, lambda n: n.get('k') == 'Index')]
+        fnp = '<frame_buffer::AmqpFrameKind as frame_buffer::FrameKind>::parse_size'
+        evs, _ = self.ctx.events(fnp)
+        idx = [e for e in evs if e.kind == 'index']
         if len(idx) != 1:
             return False, 'expected exactly one index expression, found %d' % len(idx)
-        guards, n = idx[0]
-        base = H.local_id(n['e'])
-        rng = H.peel(n['i'])
-        for kind, ifn, pol in guards:
-            c = ifn['cond']
-            if c.get('k') == 'Binary' and c['op'] == '<' and pol is False:
-                l = H.peel(c['l'])
-                r = H.peel(c['r'])
-                lhs_is_len = l.get('k') == 'MethodCall' and l['name'] == 'len' and H.local_id(l['recv']) == base
-                rhs_is_end = r.get('k') == 'Field' and r['name'] == 'end' and H.same_place(r['e'], rng)
-                if lhs_is_len and rhs_is_end:
-                    return True, 'buf[R] sits on the false edge of `buf.len() < R.end` (same buffer, same range constant)'
-        return False, 'index not dominated by the false edge of `len(buf) < RANGE.end`'
+        base, rng = S.show(idx[0].term[1]), S.show(idx[0].term[2])
+        need = ('(std::slice::len(%s) < %s.end)' % (base, rng), False)
+        if need not in S.lits_at(idx[0]):
+            return False, 'index not dominated by the false edge of `len(buf) < RANGE.end`: %s' % S.lits_at(idx[0])
+        return True, 'buf[R] sits on the false edge of `buf.len() < R.end` (same buffer, same range constant)'
 
     def size_range(self):
         c = self.ctx.const('frame_buffer::AmqpFrameKind::AMQP_FRAME_SIZE_POS')
@@ -121,71 +114,58 @@ class Checkers(object):
         return int(S.show(f['start'])), int(S.show(f['end']))
 
     def chk_parse_size_unwrap_4_bytes(self):
-        root = self.hir('<frame_buffer::AmqpFrameKind as frame_buffer::FrameKind>::parse_size')
-        un = self.calls(root, 'Result::unwrap')
+        fnp = '<frame_buffer::AmqpFrameKind as frame_buffer::FrameKind>::parse_size'
+        evs, _ = self.ctx.events(fnp)
+        un = [e for e in evs if e.kind == 'call' and e.callee == 'std::result::Result::unwrap']
         if len(un) != 1:
             return False, 'expected one unwrap'
-        recv = H.peel(un[0]['recv'])
-        if not (recv.get('k') == 'Call' and (H.callee_path(recv) or '').endswith('parse_long_uint')):
-            return False, 'unwrap is not applied to parse_long_uint(..)'
-        arg = H.peel(recv['args'][0])
-        if arg.get('k') != 'Index':
-            return False, 'parse_long_uint argument is not a slice index'
+        POS = 'frame_buffer::AmqpFrameKind::AMQP_FRAME_SIZE_POS'
+        if S.show(un[0].args[0]) != 'amq_protocol::types::parsing::parse_long_uint(buf[%s])' % POS:
+            return False, 'unwrap is not applied to parse_long_uint(buf[AMQP_FRAME_SIZE_POS]): %s' % S.show(un[0].args[0])
         a, b = self.size_range()
-        rng = H.peel(arg['i'])
-        if not (rng.get('k') == 'Def' and rng['path'].endswith('AMQP_FRAME_SIZE_POS')):
-            return False, 'slice range is not the AMQP_FRAME_SIZE_POS constant'
         if b - a != 4:
             return False, 'range %d..%d is not 4 bytes long' % (a, b)
         return True, 'parse_long_uint on exactly %d bytes (range %d..%d) cannot fail' % (b - a, a, b)
 
     def chk_read_from_slice_guarded(self):
-        root = self.hir('frame_buffer::Inner::read_from')
-        idx = self.if_guards(root, lambda n: n.get('k') == 'Index')
-        adv = self.if_guards(root, lambda n: n.get('k') == 'MethodCall' and n['name'] == 'advance')
+        evs, _ = self.ctx.events('frame_buffer::Inner::read_from')
+        idx = [e for e in evs if e.kind == 'index']
+        adv = [e for e in evs if e.kind == 'call' and e.callee.endswith('::advance')]
         if len(idx) != 1 or len(adv) != 1:
             return False, 'expected one slice and one advance (found %d, %d)' % (len(idx), len(adv))
-        (ig, inode), (ag, anode) = idx[0], adv[0]
-        base = H.local_id(inode['e'])
-        rng = H.peel(inode['i'])
-        if not (rng.get('k') == 'Struct' and H.res_path(rng['res']).endswith('RangeTo')):
+        base, rng = idx[0].term[1], idx[0].term[2]
+        if not (rng[0] == 'struct' and rng[1] == 'std::ops::RangeTo'):
             return False, 'slice is not `[..n]`'
-        end = H.local_id(dict((a, b) for a, b in rng['fields'])['end'])
-        adv_arg = H.local_id(anode['args'][0])
-        ok_guard = None
-        for kind, ifn, pol in ig:
-            c = ifn['cond']
-            if c.get('k') == 'Binary' and c['op'] == '>=' and pol is True:
-                l, r = H.peel(c['l']), H.peel(c['r'])
-                if l.get('k') == 'MethodCall' and l['name'] == 'len' and H.local_id(l['recv']) == base and H.local_id(r) == end:
-                    ok_guard = ifn
-        if ok_guard is None:
-            return False, '`bytes[..frame_size]` is not on the true edge of `bytes.len() >= frame_size` (same locals)'
-        if not any(ifn is ok_guard and pol is True for kind, ifn, pol in ag):
+        end = S.show(dict(rng[2])['end'])
+        need = ('(std::slice::len(%s) < %s)' % (S.show(base), end), False)
+        if need not in S.lits_at(idx[0]):
+            return False, '`bytes[..frame_size]` is not on the true edge of `bytes.len() >= frame_size` (same terms)'
+        if need not in S.lits_at(adv[0]):
             return False, 'advance() is not under the same guard'
-        if adv_arg != end:
+        if S.show(adv[0].args[1]) != end:
             return False, 'advance() argument is not the guarded frame size'
-        # `bytes` is the chunk of the same buffer that is advanced
-        lets = [n for n in H.walk(root) if n.get('k') == 'Let' and n['pat'].get('k') == 'Bind' and n['pat']['id'] == base]
-        if not lets or not (H.peel(lets[0]['init']).get('k') == 'MethodCall' and H.peel(lets[0]['init'])['name'] == 'chunk'
-                            and H.same_place(H.peel(lets[0]['init'])['recv'], anode['recv'])):
+        if S.show(base) != '<input_buffer::InputBuffer as bytes::Buf>::chunk(%s)' % S.show(adv[0].args[0]):
             return False, '`bytes` is not `self.buf.chunk()` of the buffer being advanced'
         return True, 'slice and advance use the frame size proven <= bytes.len() (= chunk of the advanced buffer)'
 
     # ---------------------------------------------------------------- heartbeats
     def chk_fire_sub_guarded(self):
-        root = self.hir('heartbeats::Heartbeat::fire')
-        subs = self.if_guards(root, lambda n: n.get('k') == 'Binary' and n['op'] == '-')
-        if len(subs) != 1:
-            return False, 'expected one subtraction'
-        guards, n = subs[0]
-        for kind, ifn, pol in guards:
-            c = ifn['cond']
-            if c.get('k') == 'Binary' and c['op'] in ('<=', '<') and pol is False:
-                r = H.peel(c['r'])
-                if H.same_place(c['l'], n['l']) and r.get('k') == 'Binary' and r['op'] == '+' and H.same_place(r['l'], n['r']):
-                    return True, '`interval - elapsed` sits on the false edge of `interval <= elapsed + fudge`'
-        return False, 'subtraction not on the false edge of `interval <= elapsed + _`'
+        import paths as P
+        rows = P.table(self.ctx, 'heartbeats::Heartbeat::fire', ['self', 'timer'])
+        EL = 'std::time::Instant::elapsed(self.last)'
+        n = 0
+        for x in rows:
+            subs = [e for e in x.effects if ' - ' in e]
+            for e in subs:
+                n += 1
+                if '(self.interval - %s)' % EL not in e:
+                    return False, 'a subtraction other than interval - elapsed: %s' % e
+                ok = any(p is True and re.match(r'^\(\(%s \+ .+\) < self\.interval\)$' % re.escape(EL), s_) for s_, p in x.conds)
+                if not ok:
+                    return False, 'subtraction not on the false edge of `interval <= elapsed + _`: %s' % x.cond_strs()
+        if n == 0:
+            return False, 'expected a path computing interval - elapsed'
+        return True, '`interval - elapsed` sits on the false edge of `interval <= elapsed + fudge`'
 
     def chk_heartbeat_start_interval_positive(self):
         c1 = self.callers('heartbeats::Heartbeat::start')
